@@ -396,6 +396,10 @@ func jobsFor(prop, tier string) []Job {
 			add("snap", jb.id, jb.w, jb.s, jb.p)
 		}
 		largeJobs("snap", q, append([]string{"hashset"}, largeSeqLike...), add)
+		// snapshots past 1024 elements (a memo or an adopted buffer may exist only for long containers; after C16-16)
+		for _, c := range []string{"arraylist", "doublylinkedlist", "singlylinkedlist", "linkedhashset", "linkedhashmap", "arrayqueue"} {
+			add("largestates", "snap."+c+".xl", 60, map[string]string{"c": c, "check": "snap"}, map[string]int{"n": pick(1300, 2600), "deep": 1, "every": 650})
+		}
 	case "C09":
 		u := pick(5, 6)
 		add("linked", fmt.Sprintf("linkedhashmap.u%d", u), 2, map[string]string{"c": "linkedhashmap"}, map[string]int{"u": u})
